@@ -2007,6 +2007,27 @@ example : (attachAll emptyScene [(0, 5), (0, 5), (1, 5), (0, 7)]).subs 5 = [1] :
 example : (attachSwapped (attach emptyScene 0 5) 0 5).subs 5 = [] := by decide
 example : (attach (attach emptyScene 0 5) 0 5).subs 5 = [0] := by decide
 
+/-- a notification reaches every live observer exactly as often as it is registered, whatever dead (collected)
+observers are registered before or after it, and afterwards only the live registrations remain -/
+theorem notify_reaches_every_live_observer (alive : Nat → Bool) (subs : List Nat) (l : Nat) (hl : alive l = true) :
+    (notifyRun alive subs).1.count l = subs.count l ∧ (notifyRun alive subs).2 = subs.filter alive := by
+  refine ⟨?_, rfl⟩
+  simp only [notifyRun]
+  rw [List.count_filter hl]
+
+/-- with the subscription invariant: after any (re)assignment history, whichever lasers have since been discarded, a
+change of profile `p` is delivered exactly once to every surviving laser that holds `p` -/
+theorem surviving_holder_is_notified_once (ops : List (Nat × Nat)) (alive : Nat → Bool) (l p : Nat)
+    (hl : alive l = true) (hh : (attachAll emptyScene ops).cur l = some p) :
+    (notifyRun alive ((attachAll emptyScene ops).subs p)).1.count l = 1 := by
+  rw [(notify_reaches_every_live_observer alive _ l hl).1,
+    attach_history_inv ops emptyScene subInv_empty l p, hh]
+  simp
+
+-- non-vacuity: laser 0 (registered first) is dead, laser 1 alive; and the seeded purge-in-loop misses laser 1
+example : (notifyRun (fun l => l == 1) ((attachAll emptyScene [(0, 5), (1, 5)]).subs 5)).1 = [1] := by decide
+example : notifyPurgeInLoop (fun l => l == 1) ((attachAll emptyScene [(0, 5), (1, 5)]).subs 5) = [] := by decide
+
 end Subscriptions
 
 /-! ## non-vacuity: concrete instances over ℚ -/
